@@ -2,7 +2,8 @@
 //
 // With api.DisableConfigDir() and a sandboxed font.UserFontDir, rounds of 2–32 goroutines run mixes of
 // read / validate / optimize / stamp (core font and user font) / form fill (core font and user font) /
-// encrypt / merge / split / extract on independent inputs, at GOMAXPROCS 1, 2, 4 and 16, with seeded
+// encrypt / merge / split / extract / remove pages / remove annotations on independent inputs (general
+// documents and documents whose free list pdfcpu has to repair, freelist.go), at GOMAXPROCS 1, 2, 4 and 16, with seeded
 // start skews and (every other pair of rounds) delays injected at filesystem calls. In half of the
 // rounds a mutator switches the user font directory between versions with different font-name sets and
 // calls font.ReloadUserFonts while readers look the registry up.
@@ -214,16 +215,16 @@ func shard(t *vk.T) {
 }
 
 type refEntry struct {
-	res   *prepared
-	ok bool // false once two runs alone were seen to differ
+	res *prepared
+	ok  bool // false once two runs alone were seen to differ
 }
 
 type worker struct {
 	nShards int
-	t    *vk.T
-	m    *material
-	refs map[string]*refEntry
-	cur  int // font version currently published
+	t       *vk.T
+	m       *material
+	refs    map[string]*refEntry
+	cur     int // font version currently published
 }
 
 func (w *worker) plan(r int) roundCase {
@@ -248,11 +249,16 @@ func (w *worker) plan(r int) roundCase {
 
 // pool returns the indices of the documents shard i draws from.
 func (w *worker) pool(i int) []int {
-	n := len(w.m.docs)
+	n := w.m.nGeneral
 	per := w.t.Pick(2, 6)
 	var out []int
 	for j := 0; j < per; j++ {
 		out = append(out, (i*per+j)%n)
+	}
+	// plus the shard's free-list documents (freelist.go): a third (thorough: a quarter) of the pool
+	nf := len(w.m.docs) - n
+	for j := 0; j < w.t.Pick(1, 2) && nf > 0; j++ {
+		out = append(out, n+(i*w.t.Pick(1, 2)+j)%nf)
 	}
 	return out
 }
